@@ -481,6 +481,7 @@ class Num(Val):
         self.grid = None        # integer index grid: value at (i, k) = ai*i + ak*k + c, stored as (ai, ak, c); 1-D vectors use ak = 0
         self.idxseg = None      # 1-D integer index vector as pieces (n, first value, step +-1): arange and concatenations of aranges
         self.fsf = None         # exact value as a multiple of the sampling rate: value = fsf * sampling (sympy expression in the sizes)
+        self.cover = None       # 1-D work buffers: what each piece holds (zeros / stored values / an earlier transform), see cover.py
         self.fgrid = None       # 1-D frequency grid: element i = (a + b*i) * sampling, stored as sympy (a, b)
         self.intdt = False      # the value may be held in the INTEGER dtype of integer-typed input data (products can overflow)
         self.rowview = None     # this vector is the row view M[e] of a named local matrix: (name, index AST, {name: id(value)} of the index operands)
@@ -505,6 +506,7 @@ class Num(Val):
         c.intdt = self.intdt
         c.fsf = self.fsf
         c.fgrid = self.fgrid
+        c.cover = self.cover
         c.idxseg = self.idxseg
         return c
 
@@ -760,6 +762,8 @@ def num_join(a, b):
     r.ex = a.ex if (a.ex is not None and b.ex is not None and a.ex == b.ex) else None
     r.mirror = a.mirror if (b.zero or a.mirror == b.mirror) else (b.mirror if a.zero else False)
     r.sz = sz_join(a, b)
+    from . import cover as _cv
+    r.cover = _cv.join(a.cover, b.cover)
     r.view_of = a.view_of | b.view_of
     r.mid = a.mid if a.mid == b.mid else None
     r.whole = a.whole and b.whole
